@@ -30,3 +30,15 @@ Theorem C13_nonvacuous :
   | Ok l => map (fun x => (a_name (o_atom x), a_chain (o_atom x), o_term x)) l
   | Err _ => [] end = [("N", "B", TNplus); ("CA", "B", TNone)].
 Proof. exact demo_selects_B. Qed.
+
+(* consequences.  Deleting the other chains' records first and then selecting changes nothing (selection is idempotent),
+   and the result depends only on WHICH identifiers are selected, not on their order or repetition in the option *)
+Theorem C13_selection_idempotent : forall (o : opts) (ls : list string),
+  chains o <> [] -> forallb wf_line ls = true -> parse o (filter (keeps (chains o)) ls) = parse o ls.
+Proof. exact chain_selection_idempotent. Qed.
+Theorem C13_selection_depends_on_membership_only : forall (o1 o2 : opts) (ls : list string),
+  ignore_residues o1 = ignore_residues o2 -> keep_protons o1 = keep_protons o2 ->
+  chains o1 <> [] -> chains o2 <> [] -> (forall c, mem_chr c (chains o1) = mem_chr c (chains o2)) ->
+  forallb wf_line ls = true -> parse o1 ls = parse o2 ls.
+Proof. exact chain_selection_depends_on_membership. Qed.
+Print Assumptions C13_selection_depends_on_membership_only.
